@@ -62,6 +62,20 @@ def run(ctx):
             cov["%s<=%d" % (fam, n)] = {"inputs": cnt, "calls": c.get("calls", 0), "panics": c.get("panics-in-parsers", 0), "process_deaths": c.get("fatals", 0), "timeouts": c.get("timeouts", 0),
                                         "ok": c.get("outcome-ok", 0), "error": c.get("outcome-error", 0), "ignored": c.get("outcome-ignored", 0)}
             os.remove(ver), os.remove(rec), os.remove(scn)
+    # reference graphs between SVG definitions (use, gradient href, pattern, clip path, mask, marker: SvgRefs.tla): parsing
+    # and drawing them must return (a cycle is ignored); only crashes and hangs are reported here, the geometry is C18's
+    rres = ctx.tlc("SvgRefs", None, workers=8, cfg_text="CONSTANTS\n  N = %d\n  Kind = \"x\"\nSPECIFICATION Spec\nINVARIANTS NoSelfNesting DepthBound Emit\nCHECK_DEADLOCK FALSE\n" % 3, timeout=900)
+    scn, cnt, first = ctx.scenario_lines(rres)
+    ver = os.path.join(ctx.scratch, "ver_refs.ndjson")
+    ctx.vdrive(["c18refs", "-in", scn, "-out", ver], timeout=7200)
+    ctx.key_filter = "C07:"
+    ctx.rekey = lambda r: ("C07:" + r["key"]) if r["key"].split(":")[0] in ("panic", "fatal", "timeout") else r["key"]
+    summ = ctx.consume_verdicts(ver)
+    ctx.key_filter = None
+    ctx.rekey = None
+    c = summ.get("counts", {})
+    cov["svg-reference-graphs"] = {"inputs": cnt, "calls": c.get("graphs", 0), "panics": c.get("panics", 0), "process_deaths": c.get("fatals", 0), "timeouts": c.get("timeouts", 0), "ok": c.get("graphs", 0), "error": 0, "ignored": 0}
+    os.remove(ver), os.remove(scn), os.remove(rres.out_path)
     # the contract, on the recorded outcomes
     if nrec:
         tres = ctx.tlc("ContractTrace", "ContractTrace.cfg", workers=16, env={"TRACE_FILE": allrec}, timeout=3000, heap_gb=12)
